@@ -356,6 +356,7 @@ func jobsFor(prop, tier string) []job {
 			add(d, false, cap, "receiver")
 		}
 		add(keyEmuSubScenario(), false, cap, "receiver")
+		add(keyEmuBecomesCCScenario("interrupt"), false, cap, "receiver")
 	case "C02":
 		for _, m := range modes {
 			for _, d := range keyScenarios(m, big) {
